@@ -131,6 +131,16 @@ def emit_child(e, minprec, r):
     return e.emit(r)
 
 
+def emit_arg(a, r, last):
+    """an argument: a 以…（…） chain followed by 、 would swallow the next argument as a chain link, so brace it"""
+    if isinstance(a, MCall) and not last:
+        r.w('{')
+        x = a.emit(r)
+        r.w('}')
+        return x
+    return a.emit(r)
+
+
 class Call(E):
     def __init__(self, name, args, yld=None):
         self.name, self.args, self.yld = name, args, yld
@@ -145,7 +155,7 @@ class Call(E):
             for i, a in enumerate(self.args):
                 if i:
                     r.w('、')
-                ps.append(a.emit(r))
+                ps.append(emit_arg(a, r, i == len(self.args) - 1))
         r.w('）')
         y = 'nil'
         if self.yld:
@@ -177,7 +187,7 @@ class MCall(E):
                 for j, a in enumerate(args):
                     if j:
                         r.w('、')
-                    ps.append(a.emit(r))
+                    ps.append(emit_arg(a, r, j == len(args) - 1))
             r.w('）')
             cs.append('(call %d (id %d %s) (%s) nil)' % (cl, cl, hx(m), ' '.join(ps)))
         y = 'nil'
@@ -201,7 +211,7 @@ class New(E):
             for j, a in enumerate(self.args):
                 if j:
                     r.w('、')
-                ps.append(a.emit(r))
+                ps.append(emit_arg(a, r, j == len(self.args) - 1))
         r.w('）')
         return '(new %d (id %d %s) (%s))' % (line, line, hx(self.cls), ' '.join(ps))
 
